@@ -4,6 +4,9 @@ import z3
 from pyvc.core import And, Eq, Implies, Ite, Not, Or, SymBool, SymInt
 from pyvc.unit import unit
 from specs import javaexpr as J
+from specs import dalvikgen as G
+from specs import dexwriter as DW
+from specs import javaharness as JH
 
 OPI = "androguard/decompiler/opcode_ins.py"
 WR = "androguard/decompiler/writer.py"
@@ -129,3 +132,111 @@ def opcode_expression(U, op, lit):
     else:
         U.ensures("for all operand values the printed Java expression computes the Dalvik result (%s)" % d["name"], z3.is_true(cond),
                   text=text, a=a, opcode=d["name"])
+
+
+# ---------------------------------------------------------------------------------------------
+# bounded end-to-end pipeline: generated DEX -> real DAD -> javac -> java, against the reference interpreter
+
+E2E_FILES = ["androguard/decompiler/decompiler.py", "androguard/decompiler/decompile.py", "androguard/decompiler/dataflow.py",
+             "androguard/decompiler/control_flow.py", "androguard/decompiler/graph.py", "androguard/decompiler/instruction.py",
+             "androguard/decompiler/basic_blocks.py", OPI, WR]
+BATCH = 50
+NCHUNK = 16
+
+
+def _known_seeds():
+    import json
+    import os
+    p = os.path.join(os.path.dirname(os.path.dirname(os.path.abspath(__file__))), "known_c21_seeds.json")
+    try:
+        with open(p) as f:
+            return {int(k): set(v) for k, v in json.load(f)["seeds"].items()}
+    except FileNotFoundError:
+        return {}
+
+
+KNOWN_SEEDS = _known_seeds()
+
+
+def _e2e_inputs(tier, chunk):
+    nb = 2 if tier == "quick" else 20
+    for b in range(nb):
+        yield {"base": (chunk * 100 + b) * BATCH, "count": BATCH}
+
+
+def generate(seed):
+    """one single-method class for this seed -> (class model, method description, argument tuples)"""
+    import random
+    rng = random.Random(seed)
+    cls, descs = G.make_class(rng, 1)
+    d = descs[0]
+    args = G.arg_tuples(rng, d["wide"], d["nparams"], 8)
+    return cls, d, args
+
+
+DF, CFL, GRF, DCP, INSF = ("androguard/decompiler/dataflow.py", "androguard/decompiler/control_flow.py", "androguard/decompiler/graph.py",
+                            "androguard/decompiler/decompile.py", "androguard/decompiler/instruction.py")
+E2E_COVERS = [(DCP, "DvMethod.process"), (DCP, "DvClass.get_source"), (DF, "build_def_use"), (DF, "split_variables"),
+              (DF, "dead_code_elimination"), (DF, "register_propagation"), (DF, "clear_path"), (DF, "place_declarations"),
+              (DF, "BasicReachDef.run"), (CFL, "identify_structures"), (CFL, "loop_struct"), (CFL, "if_struct"), (CFL, "switch_struct"),
+              (CFL, "short_circuit_struct"), (CFL, "while_block_struct"), (GRF, "construct"), (GRF, "make_node"), (GRF, "split_if_nodes"),
+              (GRF, "simplify"), (INSF, "BinaryExpression.replace"), (INSF, "BinaryExpression.has_side_effect"), (INSF, "Constant.visit"),
+              (WR, "Writer.write_method"), (WR, "Writer.visit_statement_node"), (WR, "Writer.visit_cond_node"), (WR, "Writer.visit_loop_node"),
+              (WR, "Writer.visit_switch_node"), (WR, "Writer.visit_assign"), (WR, "Writer.visit_return"), (WR, "Writer.visit_constant")]
+
+
+@unit("C21", covers=E2E_COVERS, params=[{"chunk": c} for c in range(NCHUNK)], level="bounded", samples=2, timeout_ms=300000,
+      note="generated structured static methods over int / long (constants, 3-register, /2addr, /lit16, /lit8 arithmetic, shifts, neg/not, "
+           "int<->long/byte/char/short casts, if / if-else with compound && / || conditions, counted loops, packed and sparse switches), one "
+           "method per class, assembled into a DEX file by an independent writer, decompiled by the real DecompilerDAD, compiled with "
+           "javac 17 and run on 8 boundary/random argument tuples each; reference = independent Dalvik interpreter. quick: 16 x 2 x 50 "
+           "methods, thorough: 16 x 20 x 50")
+def end_to_end(U, chunk):
+    for f in E2E_FILES:
+        U.mod(f)
+    dexm = U.mod("androguard/core/dex/__init__.py")
+    anam = U.mod("androguard/core/analysis/analysis.py")
+    decm = U.mod("androguard/decompiler/decompiler.py")
+    g = U.given or {"base": chunk * 100 * BATCH, "count": BATCH}
+    U.drawn.update(g)
+    sources, calls, expected, seeds = {}, {}, {}, {}
+    for seed in range(g["base"], g["base"] + g["count"]):
+        cls, d, args = generate(seed)
+        cname = "T%d" % seed
+        cls["name"], cls["source"] = "Lp/%s;" % cname, cname + ".java"
+
+        def decompile():
+            dx = dexm.DEX(DW.write([cls]))
+            an = anam.Analysis(dx)
+            an.create_xref()
+            return decm.DecompilerDAD(dx, an).get_source_class(dx.get_classes()[0])
+        o = U.call(decompile)
+        U.ensures("the decompiler does not raise", o.ok, seed=seed, exc=repr(o.exc)[:300])
+        if not o.ok:
+            continue
+        sources[cname] = o.value
+        seeds[cname] = seed
+        calls[cname] = []
+        for n, a in enumerate(args):
+            ref = G.interpret(d["code"], dict(zip(d["params"], a)))
+            if ref[0] == "timeout":
+                continue
+            key = "%s#%d" % (cname, n)
+            calls[cname].append((key, d["name"], a, d["wide"]))
+            expected[key] = (cname, a, "exc" if ref[0] == "exc" else str(ref[1]))
+    errors, results, log = JH.compile_and_run(sources, calls)
+    for cname in sorted(sources):
+        seed = seeds[cname]
+        cats = set(JH.category(m) for _, m in errors.get(cname, []))
+        listed = KNOWN_SEEDS.get(seed, set())
+        U.ensures("the decompiled source is accepted by javac", not cats,
+                  unless=[U.known("KF-C21-1", "symbol" in cats and cats <= listed), U.known("KF-C21-2", "lossy" in cats and cats <= listed)],
+                  seed=seed, errors=[list(e) for e in errors.get(cname, [])][:4], source=sources[cname][:1500])
+    for key, (cname, a, want) in sorted(expected.items()):
+        if cname in errors:
+            continue
+        U.ensures("the compiled decompiler output returns the value (or throws the ArithmeticException) the bytecode does",
+                  results.get(key) == want, seed=seeds[cname], args=a, want=want, got=results.get(key), source=sources[cname][:1500], log=log[:200])
+
+
+end_to_end.enumerate_inputs = _e2e_inputs
